@@ -146,10 +146,15 @@ theorem seqLikeWith_PX {pe : Bool → B → List Int → R (B × List Int)} {pc 
   | bytesView p ty v views buf =>
     simp only [seqLikeWith] at h
     split at h
-    · obtain ⟨v', _, h⟩ := (bind_ok _ _ _).1 h
+    · rename_i hbin
+      obtain ⟨v', _, h⟩ := (bind_ok _ _ _).1 h
       obtain ⟨bs, _, h⟩ := (bind_ok _ _ _).1 h
       cases h
-      simp only [PX]
+      simp only [PX] at hp ⊢
+      refine ViewPX_push (value := bs) hp ?_
+      intro hty
+      subst hty
+      exact absurd hbin (by decide)
     · simp [notSupported, fail] at h
   | fixedSizeBinary p n len v buf cur =>
     simp only [seqLikeWith] at h
